@@ -27,6 +27,7 @@ const PARSEABLE: [&str; 16] = [
 ];
 
 fn setup(ctx: &mut Ctx) {
+    ctx.floor("decoded-through-a-user-defined-spec", 1000);
     ctx.floor("record-sequences", 500);
     for n in PARSEABLE {
         for e in Enc::ALL {
@@ -431,6 +432,16 @@ fn run(ctx: &mut Ctx, si: usize, case: u64) {
             let ty = ctx.rng.below(17);
             let enc = Enc::ALL[ctx.rng.usize_below(4)];
             let any = ctx.rng.bool();
+            if ctx.rng.chance(1, 5) {
+                // a byte-order spec defined by a user of the crate
+                ctx.count("decoded-through-a-user-defined-spec");
+                if enc.big {
+                    roundtrip_ty(ctx, ty, super::util::UserBig, enc, "user-defined big-endian spec");
+                } else {
+                    roundtrip_ty(ctx, ty, super::util::UserLittle, enc, "user-defined little-endian spec");
+                }
+                return;
+            }
             with_spec(ctx, enc, any, |ctx, s| match s {
                 AnyOrFixed::Any(a) => roundtrip_ty(ctx, ty, a, enc, "AnyEndian"),
                 AnyOrFixed::Le => roundtrip_ty(ctx, ty, LittleEndian, enc, "LittleEndian"),
